@@ -16,7 +16,7 @@ CLAIMS = {
     'C04': ('proof', 'Derivative<n>, Position<n>, Identity transforms (n = 0..4, sizes 1..4) against coefficient-wise and EVAL-form specifications printed from the mathematics; faculty/facultyRatio/binomialCoefficient as value tables; transformSpline and operator*(O,S) with loop contracts (same support, per-interval transform, absolute index passed on).', '4 C04'),
     'C05': ('proof', 'Constructor-wise over ABSTRACT child operators (uninterpreted functions): OperatorProduct, OperatorSum (+/-), ScalarMultiplication transforms, the scalar factory overloads, SplineOperator (grid guard, Cauchy product inside the factor support, zero outside), plus the concrete expression trees the generator uses. All expression trees follow by structural induction (meta-argument). The integer-divisor overload of operator/ is a recorded known finding.', '4 C05'),
     'C06': ('proof', 'The per-interval kernel equals the exact integral for all size pairs up to 4x4 (5x3 for abstract operators); BilinearForm::evaluate: grid guard, and every call of the two (abstract) operators is made with the operand\'s own piece, grid and absolute interval index (table rendering, checked preconditions). The accumulation identity (result = sum of the per-interval integrals) is a BOUNDED stand-in for BilinearForm (at most 3 common intervals) and proved unboundedly only for LinearForm.', '4 C06'),
-    'C07': ('proof', 'LinearForm kernels (sizes 1..6) equal the exact integral; LinearForm::evaluate with an abstract operator returns the prefix sum of the per-interval integrals over exactly the intervals of the support (quantified prefix-sum axiom, unbounded number of intervals), 0 for an interval-free spline.', '4 C07'),
+    'C07': ('proof', 'LinearForm kernels (sizes 1..6) equal the exact integral; LinearForm::evaluate with an abstract operator returns the prefix sum of the per-interval integrals over exactly the intervals of the support (quantified prefix-sum axiom, unbounded number of intervals), 0 for an interval-free spline. For the second sentence (agreement with the bilinear form) only the bilinear side is in the closure: BilinearForm::evaluate hands each operator the operand\'s own piece, grid and ABSOLUTE interval index and sums the per-interval integrals (the summation bounded, see C06); the lemma that this sum is the linear form of the product spline is not proved.', '4 C07'),
     'C08': ('proof', 'Every entry point under contract that takes two splines or a spline factor carries the clause "grids logically different => DIFFERING_GRIDS" (calcUnion, calcIntersection, +, -, *, +=, -=, BilinearForm::evaluate, SplineOperator::transform), in-place forms additionally "target unchanged". Logical equality is a ghost relation, so distinct objects with equal points are the same grid by construction. linearCombination has the clause only in a BOUNDED stand-in (at most 3 splines); integrate() is not under contract.', '4 C08'),
     'C10': ('proof', 'grid_valid / support_valid / spline_valid are required and ensured by the contracts of constructors, moves (moved-from objects are valid and interval-free), assignments, arithmetic and operator application, including the exceptional exits; every history follows by induction over its length (encapsulation is a meta-argument). Aliasing cases (self-move, self-assignment) are not modelled.', '4 C10'),
     'C11': ('proof', 'Witness-style iff contracts for the Grid constructors (exact and IEEE semantics, so NaN is covered; "valid input is never refused" with a quantified hypothesis), Support and Spline constructors / setData / checkValidity. Generator: too few knots, decreasing knots, knots missing from a supplied grid are refused and the smallest admissible vectors accepted. linearCombination: BOUNDED stand-in (size mismatch, no data, differing grids refused; everything else accepted, at most 3 splines). interpolate<order 1..3> over an abstract solver: count mismatch, fewer than two points, a boundary derivative order outside 1..order are refused with the documented codes, everything else is accepted (loop contracts, any number of nodes).', '4 C11'),
